@@ -190,11 +190,15 @@ type outMsg struct {
 }
 
 type bcMut struct {
-	name  string
-	drop  bool                                  // after answering, get dropped (empty message) while the answer is being verified
-	pair  bool                                  // also answers the request for T+1
-	resp  func(s *bcScen, h int64) [][]byte     // hostile answers to a block request for height h
-	unsol func(s *bcScen) []outMsg              // unsolicited messages, sent once after connecting
+	name     string
+	vals     int                               // force this many validators (0 = any)
+	slowExec bool                              // the executer takes 300 ms per block (as ApplyBlock does on a real chain); the hostile peers start when it is first entered
+	repeat   int                               // unsolicited batch is sent this many more times, each after a fresh height announcement
+	peers    int                               // hostile peers (default 1)
+	drop     bool                              // after answering, get dropped (empty message) while the answer is being verified
+	pair     bool                              // also answers the request for T+1
+	resp     func(s *bcScen, h int64) [][]byte // hostile answers to a block request for height h
+	unsol    func(s *bcScen) []outMsg          // unsolicited messages, sent once after connecting
 }
 
 func (s *bcScen) src(h int64) *types.Block {
@@ -340,13 +344,13 @@ func bcMutations() []*bcMut {
 		mutLC("lastcommit-signed-at-another-height", func(s *bcScen, h int64, b *types.Block, lc *types.Commit) {
 			*lc = *s.chain.commit(h+5, 0, s.chain.ids[maxI64(h-1, 1)], nil, s.chain.keys)
 		}),
-		mutLC("lastcommit-exactly-two-thirds-or-less", func(s *bcScen, h int64, b *types.Block, lc *types.Commit) {
+		withVals(3, mutLC("lastcommit-exactly-two-thirds-or-less", func(s *bcScen, h int64, b *types.Block, lc *types.Commit) {
 			signers := make([]bool, s.chain.n)
 			for i := 0; i < s.chain.n*2/3; i++ {
 				signers[i] = true
 			}
 			*lc = *s.chain.commit(h-1, 0, s.chain.ids[maxI64(h-1, 1)], signers, s.chain.keys)
-		}),
+		})),
 		mutLC("lastcommit-signed-by-non-validators", func(s *bcScen, h int64, b *types.Block, lc *types.Commit) {
 			*lc = *s.chain.commit(h-1, 0, s.chain.ids[maxI64(h-1, 1)], nil, s.chain.foreign)
 		}),
@@ -481,7 +485,7 @@ func bcMutations() []*bcMut {
 			}
 			return out
 		}},
-		{name: "unsolicited-responses-for-every-height", unsol: func(s *bcScen) []outMsg {
+		{name: "unsolicited-responses-for-every-height", peers: 2, unsol: func(s *bcScen) []outMsg {
 			var out []outMsg
 			for h := int64(1); h <= 320; h++ {
 				b := s.src(h)
@@ -490,8 +494,29 @@ func bcMutations() []*bcMut {
 			}
 			return out
 		}},
+		{name: "unsolicited-response-floods-while-a-block-is-executed", peers: 3, repeat: 2, slowExec: true, unsol: func(s *bcScen) []outMsg {
+			var out []outMsg
+			for h := int64(1); h <= 200; h++ {
+				b := s.src(h)
+				b.Header.Height = h
+				if h > s.chain.top {
+					b.Data.Txs = nil // small
+				} else if h >= 2 {
+					// never justifies the block before it: every verification fails, the sender is
+					// removed from the pool, all its requesters ask again at once
+					b.LastCommit = s.chain.commit(h-1, 0, s.chain.ids[h-1], nil, s.chain.foreign)
+				}
+				out = append(out, outMsg{bcCh, encBC(&xBlockResponse{b}), fmt.Sprintf("unsolicited block response height %d", h)})
+			}
+			return out
+		}},
 	}
 	return ms
+}
+
+func withVals(n int, m *bcMut) *bcMut {
+	m.vals = n
+	return m
 }
 
 func maxI64(a, b int64) int64 {
@@ -520,14 +545,16 @@ type bcScen struct {
 	muts  []*bcMut
 	claim int64
 
-	mtx       sync.Mutex
-	executed  []int64
-	lastMut   map[int64]string
-	failed    bool
-	switched  int32
-	delivered int32 // hostile messages sent
-	poolSaw   int32 // verifier calls that saw hostile material
-	stopHost  chan struct{}
+	mtx         sync.Mutex
+	executed    []int64
+	lastMut     map[int64]string
+	failed      bool
+	switched    int32
+	delivered   int32 // hostile messages sent
+	poolSaw     int32 // verifier calls that saw hostile material
+	stopHost    chan struct{}
+	execOnce    sync.Once
+	execEntered chan struct{}
 }
 
 func (s *bcScen) viol(key, what string, extra map[string]interface{}) {
@@ -599,6 +626,10 @@ func (s *bcScen) executer(blk *types.Block, ps *types.PartSet, cm *types.Commit)
 		s.viol("block-executed-without-two-thirds-commit:"+mut, fmt.Sprintf("height %d was executed with a commit carrying %d of %d voting power", h, g, total), map[string]interface{}{"commit": fmt.Sprintf("%v", cm)})
 		return nil
 	}
+	if s.base.slowExec {
+		s.execOnce.Do(func() { close(s.execEntered) })
+		time.Sleep(300 * time.Millisecond) // stand-in for State.ApplyBlock
+	}
 	s.store.SaveBlock(blk, ps, cm)
 	s.mtx.Lock()
 	s.executed = append(s.executed, h)
@@ -631,11 +662,20 @@ func (s *bcScen) hostile(name string, budget int, wg *sync.WaitGroup) {
 	priv, info := newIdentity(fmt.Sprintf("c08-bc-%s-%d", name, s.sid))
 	var rp *rawPeer
 	reconnects := 0
+	first := true
 	connect := func() bool {
 		for try := 0; try < 40; try++ {
 			nrp, err := s.node.connect(name, info, priv)
 			if err == nil {
 				rp = nrp
+				if first && s.base.slowExec {
+					// connected but silent until the node is busy executing a block
+					select {
+					case <-s.execEntered:
+					case <-time.After(8 * time.Second):
+					}
+				}
+				first = false
 				rp.send(bcCh, encBC(&xStatusResponse{s.claim}))
 				return true
 			}
@@ -675,9 +715,16 @@ func (s *bcScen) hostile(name string, budget int, wg *sync.WaitGroup) {
 				rp.waitClosed(40 * time.Millisecond)
 			}
 		}
+		for k := 0; k < s.base.repeat && !rp.isClosed(); k++ {
+			time.Sleep(time.Duration(20+s.rint(120)) * time.Millisecond)
+			rp.send(bcCh, encBC(&xStatusResponse{s.claim}))
+			for _, m := range msgs {
+				deliver(s.base.name, m)
+			}
+		}
 		budget -= 1
 	}
-	idle := time.NewTimer(450 * time.Millisecond)
+	idle := time.NewTimer(350 * time.Millisecond)
 	defer idle.Stop()
 	for budget > 0 {
 		select {
@@ -700,7 +747,7 @@ func (s *bcScen) hostile(name string, budget int, wg *sync.WaitGroup) {
 				default:
 				}
 			}
-			idle.Reset(450 * time.Millisecond)
+			idle.Reset(350 * time.Millisecond)
 			switch msg := decBC(m.b).(type) {
 			case *xStatusRequest:
 				rp.send(bcCh, encBC(&xStatusResponse{s.claim}))
@@ -794,27 +841,41 @@ func (hp *bcHonest) loop() {
 	}
 }
 
+// surgical variants: the height whose request the hostile peer answers with the
+// mutation (1 = verified as first block, 2 = second block whose LastCommit must
+// justify block 1 and first block afterwards, 3 = after some progress), and
+// whether the honest peer only starts to talk after the burst.
+var bcVariants = []struct {
+	T    int64
+	late bool
+}{{2, true}, {1, true}, {3, true}, {2, false}, {1, false}, {3, false}}
+
 func bcScenario(cr *childRun, sid int) {
 	muts := bcMutations()
 	rng := lib.Rand("c08bc", int64(sid))
-	s := &bcScen{cr: cr, sid: sid, rng: rng, muts: muts, lastMut: map[int64]string{}, stopHost: make(chan struct{})}
-	nSurgical := len(muts) * 6
+	s := &bcScen{cr: cr, sid: sid, rng: rng, muts: muts, lastMut: map[int64]string{}, stopHost: make(chan struct{}), execEntered: make(chan struct{})}
+	nSurgical := len(muts) * lib.Pick(4, len(bcVariants))
 	if sid < nSurgical {
 		s.base = muts[sid%len(muts)]
-		v := sid / len(muts)
-		s.T = int64(1 + v%3)
-		s.late = v/3 == 0
+		v := bcVariants[sid/len(muts)]
+		s.T, s.late = v.T, v.late
 	} else {
 		s.mixed = true
 		s.base = muts[1+rng.Intn(len(muts)-1)]
 		s.T = int64(1 + rng.Intn(3))
 		s.late = rng.Intn(2) == 0
 	}
+	if s.base.slowExec {
+		s.late = false // the honest peer must be serving for a block to be executed
+	}
 	nVals := []int{4, 4, 7, 1, 3}[rng.Intn(5)]
+	if s.base.vals > 0 && !s.mixed {
+		nVals = s.base.vals
+	}
 	partSize := []int{65536, 65536, 512}[rng.Intn(3)]
 	s.chain = buildChain(fmt.Sprintf("%d", sid), rng, nVals, 6, partSize)
 	s.claim = s.chain.top
-	if s.mixed && rng.Intn(3) == 0 || s.base.name == "unsolicited-responses-for-every-height" {
+	if s.mixed && rng.Intn(3) == 0 || s.base.peers > 1 {
 		s.claim = []int64{math.MaxInt64, 1 << 40, s.chain.top + 250}[rng.Intn(3)]
 	}
 	cr.run.Distinct("bc_scenario_shapes", fmt.Sprintf("%s|T%d|late=%v|mixed=%v", s.base.name, s.T, s.late, s.mixed))
@@ -857,10 +918,16 @@ func bcScenario(cr *childRun, sid int) {
 	// the hostile burst
 	var wg sync.WaitGroup
 	nHostile := 1
-	if s.mixed && rng.Intn(2) == 0 || s.base.name == "unsolicited-responses-for-every-height" {
+	if s.mixed && rng.Intn(2) == 0 {
 		nHostile = 2
 	}
+	if s.base.peers > nHostile {
+		nHostile = s.base.peers
+	}
 	budget := 4
+	if s.base.drop {
+		budget = 6 // each answer is one try at the verification window
+	}
 	if s.mixed {
 		budget = 10 + rng.Intn(10)
 	}
@@ -943,8 +1010,8 @@ func bcScenario(cr *childRun, sid int) {
 func bcFamily() *family {
 	return &family{
 		name:     "bc",
-		children: 9,
-		total:    func() int { return lib.Pick(len(bcMutations())*6+60, len(bcMutations())*6+6000) },
+		children: 10,
+		total:    func() int { return lib.Pick(len(bcMutations())*4+30, len(bcMutations())*6+3000) },
 		run:      bcScenario,
 		watchdog: func(n int) time.Duration { return time.Duration(120+n*15) * time.Second },
 		crashKey: func(site, routine string) string {
@@ -954,10 +1021,11 @@ func bcFamily() *family {
 			return "blocksync-panic-outside-recover:" + routine + ":" + site
 		},
 		after: func(run *lib.Run, total int) {
-			run.Require("bc_controls_passed", 6)
+			run.Require("bc_controls_passed", int64(lib.Pick(4, 6)))
 			run.Require("bc_hostile_inputs", int64(total))
 			run.Require("bc_reached_pool_routine", int64(total))
 			run.Require("bc_sync_completed", int64(total*6/10))
+			run.Require("bc_scenario_shapes", int64(len(bcMutations())*3))
 			run.Require("bc_mutations_that_reached_pool_routine", 12)
 		},
 	}
